@@ -321,6 +321,11 @@ def call_append(a, b, shift, kwshift):
     return spec_append(a, b, shift)
 
 
+def oversized(r, a, b, shift):
+    """an answer larger than any right answer is wrong whatever it holds: do not serialise it (keeps the evidence bounded)"""
+    return r.shape[0] > a.shape[0] + b.shape[0] + 2 or r.shape[1] > a.shape[1] + b.shape[1] + abs(int(shift or 0)) + 8
+
+
 def img_rows(r):
     return to_int_rows(r) if r.ndim == 2 and r.shape[1] > 0 else [[] for _ in range(r.shape[0])]
 
@@ -337,6 +342,8 @@ def run_append(c):
         return {'err': type(e).__name__, 'msg': str(e)[:200]}
     if not isinstance(r, np.ndarray) or r.ndim != 2:
         return {'err': 'NotA2dArray', 'msg': repr(type(r))}
+    if oversized(r, a, b, c.get('shift')):
+        return {'err': 'OversizedOutput', 'msg': 'shape %s' % (r.shape,)}
     rows = img_rows(r)
     if rows is None:
         return {'err': 'NonIntegerOutput', 'msg': str(r.dtype)}
@@ -363,6 +370,9 @@ def run_append_history(h):
                 r = call_append(pool[op['a']], pool[op['b']], make_shift(op.get('shift'), op.get('shift_store')), op.get('kwshift'))
         except Exception as e:  # noqa: BLE001
             out.append({'err': type(e).__name__, 'msg': str(e)[:200]})
+            continue
+        if isinstance(r, np.ndarray) and r.ndim == 2 and oversized(r, pool[op['a']], pool[op['b']], op.get('shift')):
+            out.append({'err': 'OversizedOutput', 'msg': 'shape %s' % (r.shape,)})
             continue
         if not isinstance(r, np.ndarray) or r.ndim != 2 or img_rows(r) is None:
             out.append({'err': 'BadOutput', 'msg': repr(type(r))})
